@@ -1,22 +1,290 @@
-"""Case generator for the theta family (C04; theta legs of later properties)."""
+"""Case generator for the theta family (C04; theta legs of later properties).
+
+Operations and observations: see coq/theories/Corr/Theta.v.  Hashes reach the crate three ways:
+  op 1  update(item: i64)      -- the model gets the reference MurmurHash h1 (tools/pyref.py)
+  op 2  verif_insert_hash(h)   -- hook: a chosen 63-bit (or any u64) hash
+  op 3  update(x: u128)        -- public API again: x is the 16-byte MurmurHash3 PRE-IMAGE of a chosen
+                                  h1 (murmur3_x64_128 is a bijection on one 16-byte block), so crafted hashes
+                                  (collision chains, values straddling theta, 0, 2^63-1) also pass through the
+                                  crate's own hash_and_screen.
+A small KMV simulation (set + theta) is kept only to AIM the inputs (hashes around the current theta,
+trim when n > k); verdicts never depend on it."""
+import struct
+from common import Case
+import pyref
+
 FAMILY = "theta"
-CORR = "Theta"
+CORR = "Theta"             # Coq module DS.Corr.Theta
 FAMNUM = 5
 ORACLES = {"kmv_ok": 0, "layout_ok": 1}
-GEN_MODULES = [("GenTheta", ["theta/hash_table.rs", "theta/serialization.rs"],
+GEN_MODULES = [("GenTheta", ["theta/hash_table.rs", "theta/serialization.rs", "theta/sketch.rs"],
                 ["MAX_THETA", "MIN_LG_K", "MAX_LG_K", "RESIZE_THRESHOLD", "REBUILD_THRESHOLD", "STRIDE_HASH_BITS", "STRIDE_MASK",
                  "UNCOMPRESSED_SERIAL_VERSION", "COMPRESSED_SERIAL_VERSION", "FLAGS_IS_READ_ONLY", "FLAGS_IS_EMPTY",
                  "FLAGS_IS_COMPACT", "FLAGS_IS_ORDERED",
                  "LIT_get_stride", "LIT_hash_and_screen", "LIT_find_in_entries", "LIT_try_insert", "LIT_rebuild", "LIT_resize",
-                 "LIT_trim", "LIT_new", "LIT_starting_sub_multiple", "LIT_starting_theta_from_sampling_probability"],
+                 "LIT_trim", "LIT_new", "LIT_starting_sub_multiple", "LIT_preamble_longs"],
                 {"theta/hash_table.rs": ["get_stride", "hash_and_screen", "find_in_entries", "try_insert", "rebuild", "resize",
-                                         "trim", "new", "starting_sub_multiple", "starting_theta_from_sampling_probability"]})]
-OPNAMES = {}
+                                         "trim", "new", "starting_sub_multiple"],
+                 "theta/sketch.rs": ["preamble_longs"]})]
+OPNAMES = {1: "update", 2: "insert_hash", 3: "update_preimage", 4: "trim", 5: "reset", 6: "compact", 7: "dump",
+           8: "layout", 9: "layout_exact", 10: "serialize"}
+CORR_MASK = [1, 2, 3, 4, 5, 6, 7, 9, 10]   # op 8 (raw layout at any time) is judged by the layout oracle only
+
+M = (1 << 64) - 1
+MAX_THETA = (1 << 63) - 1
+C1 = 0x87c37b91114253d5
+C2 = 0x4cf5ad432745937f
+INV5 = pow(5, -1, 1 << 64)
+INVC1 = pow(C1, -1, 1 << 64)
+INVC2 = pow(C2, -1, 1 << 64)
+INVM1 = pow(0xff51afd7ed558ccd, -1, 1 << 64)
+INVM2 = pow(0xc4ceb9fe1a85ec53, -1, 1 << 64)
+
+
+def rotr(x, r):
+    return ((x >> r) | (x << (64 - r))) & M
+
+
+def unfmix64(k):
+    k ^= k >> 33; k = (k * INVM2) & M
+    k ^= k >> 33; k = (k * INVM1) & M
+    k ^= k >> 33
+    return k
+
+
+def murmur_preimage16(H1, H2, seed):
+    """the unique 16-byte block (k1, k2) with murmur3_x64_128(le8(k1)+le8(k2), seed) == (H1, H2)"""
+    f2 = (H2 - H1) & M; f1 = (H1 - f2) & M
+    g1 = unfmix64(f1); g2 = unfmix64(f2)
+    e2 = (g2 - g1) & M; e1 = (g1 - e2) & M
+    d1 = e1 ^ 16; d2 = e2 ^ 16
+    t2 = ((((d2 - 0x38495ab5) & M) * INV5) - d1) & M
+    k2p = rotr(t2, 31) ^ (seed & M)
+    k2 = (rotr((k2p * INVC1) & M, 33) * INVC2) & M
+    t1 = ((((d1 - 0x52dce729) & M) * INV5) - seed) & M
+    k1p = rotr(t1, 27) ^ (seed & M)
+    k1 = (rotr((k1p * INVC2) & M, 31) * INVC1) & M
+    assert pyref.murmur3_x64_128(pyref.le8(k1) + pyref.le8(k2), seed) == (H1, H2)
+    return k1, k2
+
+
+def f32_widened_bits(x):
+    """bits of the f64 that equals (x as f32)"""
+    f = struct.unpack("<f", struct.pack("<f", x))[0]
+    return struct.unpack("<Q", struct.pack("<d", f))[0], f
+
+
+class Sim:
+    """KMV simulation used only to aim inputs"""
+    def __init__(self, lg_k, theta0):
+        self.k = 1 << lg_k
+        self.cap = 15 * (1 << (lg_k + 1)) // 16
+        self.theta0 = theta0
+        self.reset()
+
+    def reset(self):
+        self.theta = self.theta0
+        self.s = set()
+
+    def offer(self, h):
+        if 0 < h < self.theta and h not in self.s:
+            self.s.add(h)
+            if len(self.s) > self.cap:
+                self.rebuild()
+
+    def rebuild(self):
+        srt = sorted(self.s)
+        self.theta = srt[self.k]
+        self.s = set(srt[:self.k])
+
+    def trim(self):
+        if len(self.s) > self.k:
+            self.rebuild()
+
+
+def gen_case(rng, cid, tier, lg_k=None, size_class=None):
+    if lg_k is None:
+        if tier == "quick":
+            lg_k = rng.choice([5, 5, 5, 6, 6, 7, 7, 8, 9, 10, 11, 12])
+        else:
+            lg_k = rng.choice([5, 5, 6, 6, 7, 7, 8, 8, 9, 10, 11, 12, 13, 14])
+    rf = rng.choice([0, 1, 2, 3])
+    pbits, p = f32_widened_bits(rng.choice([1.0, 1.0, 1.0, 0.5, 0.5, 1e-3, 0.999, 0.25, 2.0 ** -20]))
+    seed = rng.choice([9001, 9001, 0, 1, 2**64 - 1, rng.getrandbits(64)])
+    if pyref.seed_hash(seed) == 0:
+        seed = 9001
+    sh = pyref.seed_hash(seed)
+    theta0 = MAX_THETA if p >= 1.0 else int((2.0 ** 63) * p)
+    k = 1 << lg_k
+    lg_max = lg_k + 1
+    sim = Sim(lg_k, theta0)
+    ops = [(7, [])]
+    small = lg_k <= 8
+
+    def h1_of_item(x):
+        return pyref.murmur3_x64_128(pyref.le8(x), seed)[0]
+
+    items = []       # items offered so far (for duplicates)
+    hashes = []      # crafted hashes offered so far
+
+    def op_item(x):
+        h1 = h1_of_item(x)
+        items.append(x)
+        sim.offer(h1 >> 1)
+        ops.append((1, [x, h1]))
+
+    def op_hash(h, via=None):
+        """offer the u64 value h as a hash: through the hook, or (63-bit values) through a pre-image"""
+        via = via or (rng.choice(["hook", "hook", "pre"]) if h < (1 << 63) else "hook")
+        hashes.append(h)
+        if h < (1 << 63):
+            sim.offer(h)
+        if via == "hook":
+            ops.append((2, [h]))
+        else:
+            h1 = (h << 1) | rng.getrandbits(1)
+            k1, k2 = murmur_preimage16(h1, rng.getrandbits(64), seed)
+            ops.append((3, [k1, k2, h1]))
+
+    def scale(h):
+        """bring a crafted hash below the initial theta when sampling is on (keeps the low bits)"""
+        if theta0 >= MAX_THETA or h < theta0:
+            return h
+        nb = max(theta0.bit_length() - 1, lg_max + 8)
+        return h & ((1 << nb) - 1)
+
+    def chain(n):
+        """n hashes with equal low bits and equal stride bits at every table size: one long probe chain"""
+        low = rng.getrandbits(lg_max)
+        sb = rng.choice([0, 0, 127, 1, 64, rng.getrandbits(7)])
+        out = []
+        for _ in range(n):
+            hi = rng.getrandbits(63 - lg_max - 7)
+            out.append(scale((hi << (lg_max + 7)) | (sb << lg_max) | low))
+        return out
+
+    def same_slot(n):
+        """equal low bits, different strides"""
+        low = rng.getrandbits(lg_max)
+        return [scale((rng.getrandbits(63 - lg_max) << lg_max) | low) for _ in range(n)]
+
+    def observe():
+        r = rng.random()
+        if r < 0.35:
+            ops.append((7, []))
+        elif r < 0.6:
+            ops.append((6, [rng.getrandbits(1)]))
+        elif r < 0.75:
+            ops.append((10, [rng.getrandbits(1)]))
+        elif r < 0.9:
+            ops.append((8 if lg_k <= 9 else 7, []))
+        else:
+            ops.append((9 if lg_k <= 9 else 7, []))
+
+    # how far to go: below nominal (exact mode, resizes), or well into estimation mode
+    size_class = size_class or rng.choice(["tiny", "exact", "est", "est", "deep"])
+    target = {"tiny": rng.randint(0, 12), "exact": rng.randint(k // 4, k), "est": rng.randint(2 * k, 4 * k),
+              "deep": rng.randint(4 * k, 8 * k)}[size_class]
+    if lg_k >= 11:
+        target = min(target, 5 * k // 2)
+    if p < 1.0 and p < 0.01:
+        target = min(target * 4, 40000)      # most hashed items are screened out
+    nphases = rng.choice([1, 2, 3])
+    obs_every = max(8, target // rng.choice([3, 5, 8])) if not small else max(3, target // rng.choice([4, 10, 25]))
+    p_trim = rng.choice([1.0, 2.0, 4.0]) / max(target, 20) / 4
+    p_reset = rng.choice([0.0, 0.5, 1.0]) / max(target, 20)
+    done = 0
+    next_item = rng.choice([0, 1, -5, rng.getrandbits(63), -rng.getrandbits(62)])
+    for ph in range(nphases):
+        style = rng.choice(["items", "items", "mixed", "mixed", "crafted", "smallhash"])
+        todo = target // nphases + 1
+        while todo > 0:
+            r = rng.random()
+            if style == "items" or (style == "mixed" and r < 0.5):
+                if items and rng.random() < 0.1:
+                    op_item(rng.choice(items))          # duplicate
+                else:
+                    op_item(next_item); next_item += rng.choice([1, 1, 1, 7, -3]) or 1
+                todo -= 1; done += 1
+            elif style == "smallhash":
+                # small hashes survive every rebuild; descending arrival forces theta to keep falling
+                base = rng.randint(1, 1 << 20)
+                op_hash(max(1, base + 4 * todo) if rng.random() < 0.8 else rng.randint(1, 1 << 12))
+                todo -= 1; done += 1
+            else:
+                c = rng.random()
+                if c < 0.35:
+                    for h in chain(rng.randint(2, 40 if lg_k <= 7 else 120)):
+                        op_hash(h); todo -= 1; done += 1
+                elif c < 0.55:
+                    for h in same_slot(rng.randint(2, 30)):
+                        op_hash(h); todo -= 1; done += 1
+                elif c < 0.75:
+                    th = sim.theta
+                    for h in [th - 1, th, th + 1, th - rng.randint(1, 1000), th + rng.randint(1, 1000)]:
+                        if 0 <= h < (1 << 64):
+                            op_hash(h); todo -= 1; done += 1
+                elif c < 0.85:
+                    op_hash(rng.choice([0, 1, MAX_THETA, MAX_THETA - 1, 1 << 63, M, (1 << 62), 2, 3]))
+                    todo -= 1; done += 1
+                elif c < 0.92 and hashes:
+                    op_hash(rng.choice(hashes)); todo -= 1; done += 1   # duplicate crafted hash
+                else:
+                    op_hash(scale(rng.getrandbits(63))); todo -= 1; done += 1
+            # re-offer the entry that became theta at the last rebuild, and its neighbours
+            if sim.theta < theta0 and rng.random() < 0.02:
+                op_hash(sim.theta); op_hash(sim.theta - 1)
+            if done % obs_every == 0:
+                observe()
+            rr = rng.random()
+            if rr < p_trim * (4 if len(sim.s) > k else 1):
+                if small:
+                    ops.append((7, []))
+                ops.append((4, [])); sim.trim()
+                ops.append((7, []) if small or rng.random() < 0.3 else (6, [1]))
+            elif rr > 1 - p_reset:
+                ops.append((5, [])); sim.reset(); items.clear(); hashes.clear()
+                ops.append((7, []))
+        observe()
+    # closing sequence: everything is observed once more, trim, and again
+    ops.append((7, []))
+    ops.append((6, [0])); ops.append((6, [1])); ops.append((10, [1])); ops.append((10, [0]))
+    if lg_k <= 10:
+        ops.append((8, [])); ops.append((9, []))
+    ops.append((4, [])); sim.trim()
+    ops.append((7, [])); ops.append((6, [1]))
+    if lg_k <= 10:
+        ops.append((8, []))
+    if rng.random() < 0.5:
+        ops.append((5, [])); sim.reset()
+        ops.append((7, [])); ops.append((6, [0])); ops.append((10, [0]))
+        for _ in range(rng.randint(1, 40)):
+            op_item(next_item); next_item += 1
+        ops.append((7, [])); ops.append((6, [0])); ops.append((9 if lg_k <= 10 else 7, []))
+    return Case(cid, [lg_k, rf, pbits, seed, sh], ops, tag="theta-lgk%d-rf%d" % (lg_k, rf))
 
 
 def gen(rng, tier, n=None, focus=None):
-    return []
+    n = n or (120 if tier == "quick" else 1500)
+    cases = []
+    for i in range(n):
+        if tier == "thorough" and i % 150 == 149:
+            cases.append(gen_case(rng, i, tier, lg_k=rng.choice([15, 16]), size_class=rng.choice(["exact", "est"])))
+        else:
+            cases.append(gen_case(rng, i, tier))
+    return cases
 
 
 def nontrivial(case, obs):
-    return True
+    """at least 3 distinct hashes offered, some observation of the retained set, and a non-empty sketch at some point"""
+    hs = set()
+    for c, a in case.ops:
+        if c == 1:
+            hs.add(a[1] >> 1)
+        elif c == 2:
+            hs.add(a[0])
+        elif c == 3:
+            hs.add(a[2] >> 1)
+    seen = any(c in (6, 7) for c, a in case.ops)
+    nonempty = any(o and o[0] > 0 for (c, a), o in zip(case.ops, obs or []) if c in (1, 2, 3))
+    return len(hs) >= 3 and seen and nonempty
